@@ -51,6 +51,9 @@ Section Elementwise.
   Definition sl_append (xs : list A) (x : A) : list A := xs ++ [x].
   Definition sl_pair (a b : A) : list A := [a; b].
   Definition sl_replicate (x : A) (n : nat) : list A := repeat x n.
+  (* take / drop with a non-negative count *)
+  Definition sl_take_n (n : nat) (xs : list A) : list A := firstn n xs.
+  Definition sl_drop_n (n : nat) (xs : list A) : list A := skipn n xs.
 End Elementwise.
 
 Section Folds.
@@ -251,6 +254,16 @@ Section Strings.
   Definition sl_unwords (space : Ch) (ps : list str) : str := sl_join [space] ps.
   Definition sl_split (sep s : str) : option (list str) :=
     match sep with [] => None | _ => Some (split_go sep 0 [] s) end.
+  (* split ... by n: at most n pieces, the last one is the unsplit remainder; n = 0 gives no piece *)
+  Definition sl_splitn (sep : str) (n : nat) (s : str) : option (list str) :=
+    match sep, n with
+    | [], _ => None
+    | _, 0 => Some []
+    | _, S k => let ps := split_go sep 0 [] s in
+                Some (firstn k ps ++ (if length ps <=? k then [] else [sl_join sep (skipn k ps)]))
+    end.
+  (* s $* n *)
+  Definition sl_str_repeat (s : str) (n : nat) : str := concat (repeat s n).
   (* words: maximal runs of non-whitespace *)
   Variable is_space : Ch -> bool.
   Fixpoint words_go (cur : str) (s : str) : list str :=
@@ -291,5 +304,6 @@ Proof. reflexivity. Qed.
 Example ex_split : sl_split Nat.eqb [0] [1; 0; 2; 0; 0; 3] = Some [[1]; [2]; []; [3]]. Proof. reflexivity. Qed.
 Example ex_split2 : sl_split Nat.eqb [0; 0] [0; 0; 0; 1] = Some [[]; [0; 1]]. Proof. reflexivity. Qed.
 Example ex_lines : sl_lines Nat.eqb 0 [1; 0; 0; 2; 0] = [[1]; []; [2]]. Proof. reflexivity. Qed.
+Example ex_splitn : sl_splitn Nat.eqb [0] 2 [1; 0; 2; 0; 3] = Some [[1]; [2; 0; 3]]. Proof. reflexivity. Qed.
 Example ex_lines_cr : sl_lines Nat.eqb 0 [1; 13; 0; 2; 13; 0] = [[1; 13]; [2; 13]]. Proof. reflexivity. Qed.
 Example ex_scan : sl_scan Nat.add [1; 2; 3] = [1; 3; 6]. Proof. reflexivity. Qed.
